@@ -960,7 +960,7 @@ func TestVerifStandin_C01(t *testing.T) {
 	phase1Dur, phase1CPU := time.Since(t0), vc01CPU()
 	t1 := time.Now()
 	if !hung {
-		budget, abandon, reps := 250*time.Millisecond, 20*time.Second, 2
+		budget, abandon, reps := 150*time.Millisecond, 20*time.Second, 1
 		if tier == "thorough" {
 			budget, abandon, reps = 3*time.Second, 90*time.Second, 3
 		}
@@ -976,9 +976,9 @@ func TestVerifStandin_C01(t *testing.T) {
 			jobs <- l
 		}
 		close(jobs)
-		tw := workers / 2
-		if tw < 1 {
-			tw = 1
+		tw := workers
+		if tier == "thorough" && tw > 2 {
+			tw = workers / 2 // less measurement noise
 		}
 		var started sync.Map
 		allDone := make(chan struct{})
